@@ -6,6 +6,7 @@ import (
 	"fmt"
 	"net/http"
 	"strings"
+	"sync"
 	"testing"
 	"unicode/utf8"
 
@@ -163,6 +164,33 @@ func checkC20(c c20Case, rec *Rec) *Violation {
 	}
 	if res.Header.Get("Content-Encoding") != "" {
 		return viol(id, "C20:content-encoding-kept", "Content-Encoding %q still present after the body was re-encoded", res.Header.Get("Content-Encoding"))
+	}
+	if hash64(string(c.Body))%8 == 3 && len(c.Body) <= 64*1024 && c.Pad == 0 {
+		// several responses filtered at the same time: each gets what the single call got
+		const G = 4
+		outs := make([][]byte, G)
+		var wg sync.WaitGroup
+		for g := 0; g < G; g++ {
+			wg.Add(1)
+			go func(g int) {
+				defer wg.Done()
+				defer func() { _ = recover() }()
+				for round := 0; round < 8; round++ {
+					o, _, _, e := proxy.VerifFilterHTML(wire, hdr, declared)
+					if e != nil || !bytes.Equal(o, out) {
+						outs[g] = append([]byte("!"), o...)
+						return
+					}
+				}
+			}(g)
+		}
+		wg.Wait()
+		for g, o := range outs {
+			if o != nil {
+				return viol(id, "C20:body-differs:filtered-concurrently:"+label, "body of %d bytes filtered by %d goroutines at once: goroutine %d got %d bytes, the single call %d; first difference at %d", len(c.Body), G, g, len(o)-1, len(out), firstDiff(o[1:], out))
+			}
+		}
+		rec.Label("filtered-concurrently")
 	}
 	// end to end for a share of the cases: the same document served by a web server and fetched through the real proxy
 	if len(c.Body) <= 128*1024 && c.Pad == 0 && hash64(string(c.Body))%4 == 0 {
